@@ -68,6 +68,18 @@ CLAIMED = {
             "state, all at every depth of any tree. Step correspondence on fixed-income histories (C17 footprint); monitors: notional by kind, carry rows, ledger, additive index, "
             "SetNotional-scaled targets right after Rebalance in generated FixedIncomeStrategy backtests.",
             "DESIGN 7 C17"),
+    "C06": ("17 theorems about `algoRebalance` (the Rebalance algo as a composition of engine operations) and its parts: opRebalance reduces to the allocation (weight - current weight) x base "
+            "(fixed income: weight x base - weight_c x notional by transact/allocate), a fractional cost-free security allocation trades exactly amount/(price x mult), one rebalance + update "
+            "brings a security child at any depth to weight x base, the whole algo on a flat strategy (any number of children and targets, induction over both loops) leaves every target at "
+            "(1-cash) x w, closes every non-target above TOL and keeps cash = V - sum of targets (partial: one level, fractional, no costs, TargetExact), sub-strategy targets receive and spread "
+            "capital by child weight (any tree), whole-unit targets are within one unit's value, RebalanceOverTime's schedule reaches the target in n equal steps; Lean witnesses of the "
+            "zero-value non-target that stays open (known finding) and of a target whose quantity is below TOL. Correspondence: the real Rebalance call re-executed by the model from "
+            "the real pre-state on random prior portfolios; monitor: target weights, closed non-targets, cash remainder, sub-strategy spreading, n-step variant.",
+            "DESIGN 7 C06"),
+    "C04": ("Run-level theorems are in preparation (prefix-determinacy of the engine update and of the backtest loop); the per-algo no-look-ahead theorems already audited are "
+            "Bt.C14 *_no_lookahead (7 selectors) and Bt.C15 window_prefix_determined / window_exact. This check decides the property by the metamorphic correspondence between two "
+            "executions of the real code: every supplied value dated after a random cut is perturbed and all node histories up to the cut must be bit-identical.",
+            "DESIGN 7 C04"),
 }
 # pid -> reason it is not claimed (yet)
 NOT_YET = {}
@@ -79,7 +91,8 @@ def main():
     na = []
     for p in props:
         pid = p["id"]
-        if pid in CLAIMED:
+        ready = os.path.exists(os.path.join(HERE, "lean", "Bt", "Props", pid + ".lean")) and os.path.exists(os.path.join(HERE, "harness", "props", pid + ".py"))
+        if pid in CLAIMED and ready:
             text, ref = CLAIMED[pid]
             checks.append({
                 "property_id": pid,
